@@ -48,7 +48,9 @@ orc_target_get_default (void)
   if (envvar != NULL) {
     OrcTarget *const target = orc_target_get_by_name (envvar);
 
-    if (target != NULL)
+    /* an override naming a backend this CPU cannot execute must not become
+     * the target of the default compile path */
+    if (target != NULL && target->executable)
       return target;
   }
 
